@@ -6,6 +6,7 @@ import (
 	_ "verif/props/c02"
 	_ "verif/props/c03"
 	_ "verif/props/c04"
+	_ "verif/props/c05"
 	_ "verif/props/c06"
 	_ "verif/props/c08"
 	_ "verif/props/c09"
